@@ -61,6 +61,39 @@ def getitem(I, obj, idx):
             # selection inside an already selected part: conjunction of the masks
             f, m0, g = obj.fn, obj.maskfn, idx.fn
             return SCompressed(f, lambda i: z3.And(m0(i), V.bterm(g(i))), obj.length, obj.kind, src=obj.src)
+        if isinstance(idx, int) and not isinstance(idx, bool) and idx in (0, -1):
+            # first / last selected element: a witness index with its defining axioms (IndexError when empty)
+            n = V.iterm(obj.length)
+            cnt = V.iterm(count_mask(I, obj.maskfn, obj.length))
+            j = z3.Int(fresh("sel_first" if idx == 0 else "sel_last"))
+            i = z3.Int(fresh("i"))
+            I.safety("index", z3.Exists([i], z3.And(i >= 0, i < n, obj.maskfn(i))), "IndexError")
+            other = z3.And(i >= 0, i < j) if idx == 0 else z3.And(i > j, i < n)
+            I.axiom("def:selection-end", z3.And(j >= 0, j < n, obj.maskfn(j), cnt > 0,
+                                                z3.ForAll([i], z3.Implies(other, z3.Not(obj.maskfn(i))))))
+            return obj.fn(j)
+        if isinstance(idx, slice) and idx.step is None and idx.start is None and isinstance(idx.stop, SInt):
+            # a[:k] with a symbolic k (negative: all but the last -k): abstracted to fresh values of the right length
+            cnt = V.iterm(count_mask(I, obj.maskfn, obj.length))
+            k = idx.stop.term
+            ln = z3.If(k < 0, z3.If(cnt + k > 0, cnt + k, 0), z3.If(k < cnt, k, cnt))
+            f = z3.Function(fresh("selslice"), z3.IntSort(), z3.RealSort())
+            I.trusted.add("A9.slices of selections abstracted to fresh values")
+            return SArray(SInt(z3.simplify(ln)), lambda j, f=f: SReal(f(j)), obj.kind)
+        if isinstance(idx, slice) and idx.step is None and all(v is None or (isinstance(v, int) and not isinstance(v, bool))
+                                                                for v in (idx.start, idx.stop)):
+            # a[:k] / a[-k:] of a selection: ABSTRACTED to an array of fresh values of the right length (what the
+            # elements are is lost; sound for proofs, a refutation that depends on them does not replay)
+            cnt = V.iterm(count_mask(I, obj.maskfn, obj.length))
+            if idx.start is None and idx.stop is not None and idx.stop >= 0:
+                ln = z3.If(cnt < idx.stop, cnt, z3.IntVal(idx.stop))
+            elif idx.stop is None and idx.start is not None and idx.start < 0:
+                ln = z3.If(cnt < -idx.start, cnt, z3.IntVal(-idx.start))
+            else:
+                raise Unsupported("slice of a compressed array")
+            f = z3.Function(fresh("selslice"), z3.IntSort(), z3.RealSort())
+            I.trusted.add("A9.slices of selections abstracted to fresh values")
+            return SArray(SInt(z3.simplify(ln)), lambda k, f=f: SReal(f(k)), obj.kind)
         raise Unsupported("indexing a compressed array")
     if isinstance(obj, sx.LibRef) and obj.name in ("typing.List", "typing.Literal"):
         return Opaque("type")
@@ -518,6 +551,10 @@ def method_of(I, obj, name):
         impl = I.lib.get("ndarray." + name)
         if impl is not None:
             return BM(obj, B("ndarray." + name, impl))
+    if type(obj).__name__ == "S2D":
+        impl = I.lib.get("ndarray2d." + name)
+        if impl is not None:
+            return BM(obj, B("ndarray2d." + name, impl))
     if isinstance(obj, (SAtom,)):
         impl = I.lib.get("str." + name)
         if impl is not None:
@@ -552,6 +589,12 @@ def count_mask(I, maskfn, length):
     n = V.iterm(length)
     c = COUNT(lam, n)
     I.axiom("count:0<=count<=len", z3.And(c >= 0, c <= n))
+    # count > 0  <=>  some entry in range is selected (witness for =>, instance for <=)
+    w = z3.Int(fresh("cw"))
+    i = z3.Int(fresh("ci"))
+    I.axiom("count:positive-iff-nonempty",
+            z3.And(z3.Implies(c > 0, z3.And(w >= 0, w < n, maskfn(w))),
+                   z3.ForAll([i], z3.Implies(z3.And(i >= 0, i < n, maskfn(i)), c > 0))))
     return SInt(c)
 
 
@@ -596,6 +639,17 @@ def install_builtins(I):
             # havoc iteration: ONE iteration for a symbolic index (loop body verified for every index)
             idx, item = x.attrs["__symbolic_enumerate__"]
             return [(I.binop("Add", idx, start) if start != 0 else idx, item)]
+        if isinstance(x, SArray) and not isinstance(x.length, int) and I.ghost.get("symbolic_loop_index") is not None \
+                and start == 0:
+            # havoc iteration over an array of symbolic length, requested by the contract: the loop body runs ONCE
+            # for an arbitrary index (the contract is responsible for the body not depending on earlier iterations)
+            ii = I.ghost["symbolic_loop_index"]
+            n = x.len_term()
+            if not I.fork(n > 0):
+                return []
+            I.assume(z3.And(ii >= 0, ii < n))
+            I.trusted.add("loop verified for one arbitrary iteration (havoc): enumerate over an array of symbolic length")
+            return [(SInt(ii), x.at(ii))]
         return [(i + start, v) for i, v in enumerate(iterate(I, x))]
     bi["enumerate"] = B("enumerate", b_enumerate)
     bi["zip"] = B("zip", lambda I, *xs: [tuple(t) for t in zip(*[iterate(I, x) for x in xs])])
@@ -772,10 +826,20 @@ def _plain(items):
     return out
 
 
+def _guarded_bool(I, x, neutral):
+    """truth value of an element that exists only under a presence condition: neutral when absent"""
+    if isinstance(x, tuple) and len(x) == 3 and x[0] == "__guarded__":
+        g = x[1] if not isinstance(x[1], bool) else z3.BoolVal(x[1])
+        v = I.as_bool_val(x[2])
+        vt = V.bterm(v) if not isinstance(v, bool) else z3.BoolVal(v)
+        return SBool(z3.And(g, vt)) if neutral is False else SBool(z3.Implies(g, vt))
+    return I.as_bool_val(x)
+
+
 def _any(I, xs):
     acc = False
     for x in xs:
-        acc = I.or_val(acc, I.as_bool_val(x))
+        acc = I.or_val(acc, _guarded_bool(I, x, False))
         if acc is True:
             return True
     return acc
@@ -784,7 +848,7 @@ def _any(I, xs):
 def _all(I, xs):
     acc = True
     for x in xs:
-        acc = I.and_val(acc, I.as_bool_val(x))
+        acc = I.and_val(acc, _guarded_bool(I, x, True))
         if acc is False:
             return False
     return acc
@@ -986,7 +1050,19 @@ def _reduce_sum(I, arr):
         body = V.rterm(fn(k))
     if arr.kind == "bool" and isinstance(arr, SArray):
         return count_mask(I, lambda i: V.bterm(fn(i)), arr.length)
-    return SReal(SUM(z3.Lambda([k], body), n))
+    if arr.kind == "bool" and isinstance(arr, SCompressed):
+        # number of selected entries that are true
+        return count_mask(I, lambda i: z3.And(maskfn(i), V.bterm(fn(i))), arr.length)
+    tot = SUM(z3.Lambda([k], body), n)
+    if getattr(I, "sum_sign_axioms", False):
+        # a sum of non-negative (non-positive) terms is non-negative (non-positive); an empty sum is 0
+        j = z3.Int(fresh("sj"))
+        inr = z3.And(j >= 0, j < n)
+        term = z3.substitute(body, (k, j))
+        I.axiom("sum:sign", z3.And(
+            z3.Implies(z3.ForAll([j], z3.Implies(inr, term >= 0)), tot >= 0),
+            z3.Implies(z3.ForAll([j], z3.Implies(inr, term <= 0)), tot <= 0)))
+    return SReal(tot)
 
 
 def install_numpy(I):
@@ -1135,6 +1211,68 @@ def install_numpy(I):
             return A.elementwise(I, f, a, b, kind="bool")
         return f(a, b)
     L["numpy.isclose"] = isclose
+
+    def np_minmax2(which):
+        def f(I, a, b, out=None, **k):
+            def sc(x, y):
+                c = A.scalar_compare("Lt" if which == "min" else "Gt", x, y)
+                return A.ite_val(V.bterm(c) if not isinstance(c, bool) else z3.BoolVal(c), x, y)
+            r = A.elementwise(I, sc, a, b) if (A.is_arraylike(a) or A.is_arraylike(b)) else sc(a, b)
+            if out is not None:
+                if not (isinstance(out, SArray) and isinstance(r, SArray)):
+                    raise Unsupported("out= of this kind")
+                out.write(I, r.snap())
+                return out
+            return r
+        return f
+    L["numpy.minimum"] = np_minmax2("min")
+
+    def flatnonzero(I, a):
+        # indices of the true entries: a selection of the index sequence
+        if isinstance(a, SArray) and a.kind == "bool":
+            sn = a.snap()
+            return SCompressed(lambda i: SInt(i), lambda i: V.bterm(sn(i)), a.length, "int")
+        raise Unsupported("flatnonzero of this value")
+    L["numpy.flatnonzero"] = flatnonzero
+
+    def np_where3(I, cond, a=None, b=None):
+        if a is None or b is None:
+            raise Unsupported("np.where with one argument")
+        def sc(c, x, y):
+            return A.ite_val(V.bterm(c) if not isinstance(c, bool) else z3.BoolVal(c), x, y)
+        return A.elementwise(I, sc, cond, a, b)
+    L["numpy.where"] = np_where3
+
+    def allclose(I, a, b, rtol=None, atol=None, equal_nan=False, **k):
+        """scalars and equally long lists/tuples of numbers; anything non-numeric raises TypeError and lists of
+        different lengths ValueError (numpy: ufunc not supported for the input types / cannot broadcast)"""
+        def flat(v):
+            if isinstance(v, (list, tuple)):
+                out = []
+                for x in v:
+                    out.extend(flat(x))
+                return out
+            return [v]
+        if A.is_arraylike(a) or A.is_arraylike(b):
+            raise Unsupported("allclose of arrays")
+        fa, fb = flat(a), flat(b)
+        if not all(V.is_num(x) for x in fa + fb):
+            I.raise_py("TypeError", "ufunc 'isfinite' not supported for the input types")
+        if len(fa) != len(fb) and 1 not in (len(fa), len(fb)):
+            I.raise_py("ValueError", "operands could not be broadcast together")
+        if len(fa) != len(fb):
+            fa, fb = (fa * len(fb), fb) if len(fa) == 1 else (fa, fb * len(fa))
+        terms = []
+        for x, y in zip(fa, fb):
+            c = V.bterm(isclose(I, x, y, rtol=rtol, atol=atol))
+            nx, ny = A._zb(V.nanflag(x)), A._zb(V.nanflag(y))
+            if equal_nan:
+                c = z3.If(z3.Or(nx, ny), z3.And(nx, ny), c)
+            else:
+                c = z3.And(z3.Not(nx), z3.Not(ny), c)
+            terms.append(c)
+        return SBool(z3.simplify(z3.And(*terms)) if terms else z3.BoolVal(True))
+    L["numpy.allclose"] = allclose
 
     def array_equal(I, a, b, **k):
         if isinstance(a, SArray) and isinstance(b, SArray):
@@ -1446,10 +1584,19 @@ def install_bytes(I):
     MD5 = sx.ClassVal("md5", [sx.OBJECT], {})
     MD5.ns["hexdigest"] = sx.Builtin("hexdigest", lambda I, self: ("__md5__", self.attrs["data"]))
 
+    def md5_update(I, self, data):
+        # md5 of a concatenation = successive updates
+        if not isinstance(data, SBytes):
+            raise Unsupported("md5.update of non-bytes")
+        self.attrs["data"] = SBytes(self.attrs["data"].chunks + data.chunks)
+    MD5.ns["update"] = sx.Builtin("update", md5_update)
+
     def md5(I, data=None):
+        if data is None:
+            data = SBytes([])
         if not isinstance(data, SBytes):
             raise Unsupported("md5 of non-bytes")
-        return sx.Obj(MD5, {"data": data})
+        return sx.Obj(MD5, {"data": SBytes(data.chunks)})
     L["hashlib.md5"] = md5
 
     old_str = I.builtins["str"].fn
